@@ -238,6 +238,23 @@ def r_candc(repo, rep, R='R15.1'):
                     # for k, v in token.items(): node.set(k, f(v)) -- every field goes through f
                     rewritten.append('%s=%s' % (show(k)[:30], show(v)[:50]))
     rep.check(not rewritten, R, w, 'candc:token-verbatim:write', 'token fields are written exactly as stored in the token', 'token fields are rewritten on output: %s' % sorted(set(rewritten)))
+    # ... and every field is written, whatever its value: the reader indexes the attributes it needs (attrib['lemma']), so a field left out
+    # because its value is empty makes the file unreadable
+    skipped = []
+    n_star = 0
+    for st, o in SymExec(wrec, unroll=1).run():
+        for e in st.events:
+            if e[0] == 'call' and e[1][1][0] == 'attr' and e[1][1][2] == 'set' and len(e[1][2]) == 2:
+                k, v = e[1][2]
+                if k[0] == 'unpack' and k[2] == 0 and k[1][0] == 'elem':
+                    n_star += 1
+                    gs = [(g_, pol_) for g_, pol_ in list(guards_of(st, e)) + [(c_, p_) for c_, p_, _n in st.conds] if any(x_ == k[1] for x_ in subterms(g_))]
+                    if gs:
+                        skipped.append('; '.join('%s%s' % ('' if pol_ else 'not ', show(g_)[:40]) for g_, pol_ in gs[:2]))
+    if n_star:
+        rep.check(not skipped, R, w, 'candc:token-fields:all', 'every field of a token is written, whatever its value',
+                  'a token field is written only when %s: a field with an empty value is left out of the <lf> and read_xml, which indexes the fields it needs, '
+                  'raises KeyError on the file' % (skipped[0] if skipped else ''))
     transformed = []
     for c_ in token_calls:
         if c_[2]:
